@@ -21,8 +21,11 @@ ZONES = {"za": "zone-a", "zb": "zone-b"}
 OPTS = {"project": "c06"}
 
 
-def offering(zone, ct, price_units, available=True):
-    return {"zone": zone, "ct": ct, "price": int(price_units * PRICE_UNIT), "available": bool(available)}
+def offering(zone, ct, price_units, available=True, rid="", rcap=0):
+    o = {"zone": zone, "ct": ct, "price": int(price_units * PRICE_UNIT), "available": bool(available)}
+    if rid:
+        o.update(rid=rid, rcap=rcap)
+    return o
 
 
 def itype(name, cpu, offerings, mem=None):
@@ -154,6 +157,17 @@ def directed(rng):
         out.append(scenario("stuck-pod:" + "-".join(sel.values()), default_catalog(), [dc.pool("pa")], nodes, pods,
                             [{"a": "Method", "method": "single"}, {"a": "Method", "method": "multi"}, {"a": "Round"}],
                             {"kind": "directed", "case": "stuck-pod"}))
+    # F: capacity reservations: the replacement is pinned to reserved capacity (precedence reserved > spot > on-demand)
+    for rprice, rcap, avail in ((0, 1, True), (1, 2, True), (9, 1, True), (0, 1, False)):
+        cat = default_catalog(spread=True)
+        cat[0]["offerings"].append(offering("zone-a", "reserved", rprice, available=avail, rid="res-a", rcap=rcap))
+        cat[1]["offerings"].append(offering("zone-b", "reserved", rprice + 1, available=avail, rid="res-b", rcap=rcap))
+        for ct in ("on-demand", "spot"):
+            nodes = [dc.node("c1", "pa", "t3", ct=ct), dc.node("c2", "pa", "t3", ct=ct)]
+            pods = [dc.pod("p1", "c1", cpu=900), dc.pod("p2", "c2", cpu=900)]
+            out.append(scenario("reserved:%d:%d:%s:%s" % (rprice, rcap, avail, ct), cat, [dc.pool("pa")], nodes, pods,
+                                [{"a": "Method", "method": "multi"}, {"a": "Method", "method": "single"}, {"a": "Round"}],
+                                {"kind": "directed", "case": "reserved"}, s2s=True))
     # D: the pod on the removed node disappears while the command waits (witness mentions a pod that is gone)
     nodes = [dc.node("c1", "pa", "t3")]
     pods = [dc.pod("p1", "c1", cpu=1500), dc.pod("p1b", "c1", cpu=300)]
@@ -188,6 +202,8 @@ def rand_catalog(rng, ntypes, nzones, profile):
                 offs.append(offering(z, ct, max(0, base + delta), available=rng.random() > 0.12))
         if not offs:
             offs.append(offering(zones[0], "on-demand", od))
+        if rng.random() < 0.1:                                     # a capacity reservation (usually prepaid: price 0)
+            offs.append(offering(rng.choice(zones), "reserved", rng.choice([0, 0, 1, od]), rid="res-%02d" % i, rcap=rng.randint(1, 2)))
         cat.append(itype("x%02d" % i, cpu, offs))
     return cat, zones
 
@@ -220,11 +236,12 @@ def explore(rng, n, tag="explore"):
             t = rng.choice(cat)
             o = rng.choice(t["offerings"])
             ct = o["ct"]
-            if spotty:
-                sp = [x for x in t["offerings"] if x["ct"] == "spot"]
+            want = "spot" if spotty else next((r["values"][0] for r in reqs if r["key"] == "karpenter.sh/capacity-type"), None)
+            if want:
+                sp = [x for x in t["offerings"] if x["ct"] == want]
                 if sp:
                     o = rng.choice(sp)
-                    ct = "spot"
+                    ct = want
             nm = "n%d" % j
             nodes.append(dc.node(nm, "pa", t["name"], zone=o["zone"], ct=ct))
             room = t["cpu"]
